@@ -386,6 +386,36 @@ def main():
             ck.fail("ensemble-does-not-sum-to-one", inp, f"reported probabilities of all chain lengths add up to {tot!r}, the law's mass there is {want_tot!r}",
                     ("end-group-start-mass-counted" if offset else "mass-at-or-below-zero-not-counted" if below_zero else None)
                     if abs(tot - model_tot) <= 1e-6 else None)
+    # ---- two directly adjacent blocks of the SAME repeat unit: a chain of n units arises from every split (j, n - j), the reported value is the sum
+    # over the splits (uniform laws without mass at or below zero, prefix start: none of the recorded findings applies)
+    for text, (l1, h1), (l2, h2), unit in [("[H]{[<][<]CC[>][>]}|uniform(10, 150)|{[<][<]CC[>][>]}|uniform(20, 100)|[Si]", (10, 150), (20, 100), "CC"),
+                                          ("OCC{[<][<]C(N)C[>][>]}|uniform(0, 200)|{[<][<]C(N)C[>][>]}|uniform(30, 120)|Br", (0, 200), (30, 120), "C(N)C")]:
+        u = heavy(unit)
+
+        def F(x, lo, hi):
+            return min(1.0, max(0.0, (x - lo) / (hi - lo)))
+        tot_impl = tot_want = 0.0
+        nmax = int((h1 + h2) / u) + 3
+        for n in range(2, nmax + 1):
+            want = 0.0
+            for j in range(1, n):
+                want += (F(j * u, l1, h1) - F((j - 1) * u, l1, h1)) * (F((n - j) * u, l2, h2) - F((n - j - 1) * u, l2, h2))
+            j0 = max(1, min(n - 1, n // 2))
+            try:
+                smi = generate(text, [(j0 - 0.5) * u, (n - j0 - 0.5) * u], ck.seed + n)
+                got, _ = prob(text, smi)
+            except Exception as exc:
+                ck.fail("probability-raises", {"molecule": text, "units": n}, f"{type(exc).__name__}: {exc}")
+                continue
+            ck.evaluations += 1
+            ck.count("same-unit-adjacent-blocks")
+            tot_impl += got
+            tot_want += want
+            if not close(got, want, 1e-6, 1e-9):
+                ck.fail("probability-differs-from-generation", {"molecule": text, "units_in_both_blocks": n, "smiles": smi},
+                        f"get_ensemble_prob = {got!r}; generation produces this chain with probability {want!r} (sum over the {n - 1} splits between the two blocks)")
+        if abs(tot_impl - tot_want) > 1e-6:
+            ck.fail("ensemble-does-not-sum-to-one", {"molecule": text}, f"reported probabilities of all chain lengths add up to {tot_impl!r}, expected {tot_want!r}")
     ck.rule = ("one case = one (molecule of the class, unit count per block): the chain is produced by the real generator with forced targets and queried; "
                "molecules: prefix or end-group start x 1-3 blocks x 6 units x 6 end groups x distribution families; single-block and small two-block ensembles "
                "are enumerated over all chain lengths carrying 1 - 1e-9 of the law and summed; every fifth chain is re-queried under two random atom renumberings "
